@@ -40,6 +40,9 @@ func init() {
 		Rule: "one case = one generated workflow (emphasis on fan-out of one out-port to several consumers incl. tagging components, fan-in with concurrent port closing, multi-core tasks, parameter feeders, RunTo; also streaming pairs, lazily loaded records, 2-3 taggers in a row, one or two failing commands) run under one tape-chosen schedule on the race-instrumented build; the in-simulator happens-before checker (vector clocks, edges only from go / channel send-receive / close / mutex / WaitGroup as in the Go memory model) reports every pair of conflicting accesses to a tracked location (maps, struct fields reached through pointers, object graphs handed to encoding/json) that is unordered in that execution. Round 5: bundled components (C19 shapes), a second workflow created and run concurrently, nested workflows. Round 6: indexed slice elements are tracked; two Concatenator branches side by side. distinct = event-log hash; non-trivial = >=2 tasks and >=1 non-default choice",
 		Run: func(c *Case) Verdict {
 			var w *WF
+			if c.Tape.Choose(simrt.StGen, 14, 0) == 1 {
+				return sameFileTwiceCase(c)
+			}
 			switch c.Tape.Choose(simrt.StGen, 9, 0) {
 			case 5:
 				// two gathering components side by side in one workflow: whatever
@@ -225,6 +228,53 @@ func lazyIPFanoutWF(c *Case) *WF {
 	w.MaxTasks = 1 + t.Choose(simrt.StGen, 4, 0)
 	w.Bufsize = bufsizeOf(t)
 	return w
+}
+
+// sameFileTwiceCase: files that already have audit files (an earlier program
+// made them) enter a workflow TWICE, through two FileSources: one branch tags
+// them in place, the other reads them (a shell command or a Go function). The
+// two branches hold different IPs of the same file and must not share memory.
+func sameFileTwiceCase(c *Case) Verdict {
+	t := c.Tape
+	w0 := &WF{Name: "wf", Sources: map[string]string{}, MaxTasks: 2, Bufsize: bufsizeOf(t)}
+	mk := oneToOne(w0, "mk", Edge{srcNode(w0, "src0", 1+t.Choose(simrt.StGen, 3, 0), ""), "out"})
+	_ = mk
+	inc0 := RunInc(w0, c.Tape, nil, 0, IncOpts{KillAt: -1, Strategy: strategyOf(c.Tape), Trace: c.Trace, Race: true})
+	c.Absorb(inc0)
+	if v, ok := inconclusiveEnd(inc0); ok {
+		return v
+	}
+	if !completedOK(inc0) {
+		return Skipped(Viol("no-completion", "", "%s", endDesc(inc0)))
+	}
+	var files []string
+	for _, tk := range Eval(w0).Tasks {
+		if tk.Proc == "mk" {
+			files = append(files, tk.Outs["o0"])
+		}
+	}
+	w := &WF{Name: "wf2", Sources: map[string]string{}, MaxTasks: 1 + t.Choose(simrt.StGen, 3, 0), Bufsize: bufsizeOf(t)}
+	sa := addNode(w, Node{Name: "srca", Kind: KFileSrc, Files: files})
+	sb := addNode(w, Node{Name: "srcb", Kind: KFileSrc, Files: files})
+	addNode(w, Node{Name: "tagk", Kind: KMapToTags, TagKey: "kind",
+		Ins: []InSpec{{Name: "in", From: []Edge{{sa, "out"}}}}, Outs: []OutSpec{{Name: "out"}}})
+	u := oneToOne(w, "useb", Edge{sb, "out"})
+	if t.Choose(simrt.StGen, 2, 0) == 1 {
+		w.Nodes[u].Custom = 1
+	}
+	c.Sample = "existing files enter a workflow through two FileSources: " + sample(w)
+	c.Probe("same-file-through-two-sources")
+	inc := RunInc(w, c.Tape, inc0.Sim.FS.Root, inc0.Sim.FS.NextIno, IncOpts{KillAt: -1, Strategy: strategyOf(c.Tape), Trace: c.Trace, Race: true})
+	c.Absorb(inc)
+	if v, ok := inconclusiveEnd(inc); ok {
+		return v
+	}
+	reps := inc.Sim.RaceReports()
+	if len(reps) == 0 {
+		return OK()
+	}
+	sort.Slice(reps, func(i, j int) bool { return raceSig(reps[i]) < raceSig(reps[j]) })
+	return Viol("data-race", raceSig(reps[0])+"|two-ips-of-one-file", "%s", reps[0].String())
 }
 
 // twoConcatWF: two independent branches source -> (process) -> Concatenator ->
